@@ -270,6 +270,9 @@ func (r *Run) havocLoop(st *State, fr *Frame, li *LoopInfo) {
 			}
 		case *ssa.MapUpdate:
 			regions["map:"+typeKey(x.Map.Type())] = true
+		case *ssa.Go:
+			// the spawned body runs concurrently: its effects are interference, seen at lock acquisitions
+			regions["cnt:go"] = true
 		case ssa.CallInstruction:
 			r.scanCallEffects(f, fn, x, binds, regions, &all, addCell, scanFn)
 		case *ssa.Send:
@@ -326,7 +329,7 @@ func (r *Run) havocLoop(st *State, fr *Frame, li *LoopInfo) {
 		st.Counters[k] = nv
 	}
 	for k := range st.Ghost {
-		if strings.HasPrefix(k, "arg:") || strings.HasPrefix(k, "res:") || k == "rand.last" {
+		if strings.HasPrefix(k, "arg:") || strings.HasPrefix(k, "res:") || k == "rand.last" || strings.HasPrefix(k, "lastsent:") || strings.HasPrefix(k, "lastrecv:") {
 			delete(st.Ghost, k)
 		}
 		if strings.HasPrefix(k, "ctxerr.last:") && (regions["ctxerr.last"] || all) {
@@ -741,7 +744,9 @@ func (r *Run) newObject(st *State, t types.Type, hint string) T {
 	ref := e.freshConst("new_"+e.structKey(t)+"_"+hint, SRef)
 	st.assume(Not(Eq(ref, NilOf(SRef))))
 	for _, o := range st.Fresh {
-		st.assume(Not(Eq(ref, o)))
+		if o.So == SRef {
+			st.assume(Not(Eq(ref, o)))
+		}
 	}
 	for _, p := range st.Entry {
 		if pt, ok := p.(T); ok && pt.So == SRef {
